@@ -10,6 +10,12 @@ def classify(p, b, claims):
             return ('c07:live:for-header-kills-target',
                     '%s is read at node %d, but not reported live at the entry of the for loop (node %d) whose target it is: '
                     'the header kills its target also on the zero-trip / exit edge' % (nm, n, on))
+        rn = p['nodes'][n - 1] if n else None
+        if rn and rn['kind'] == 'call' and nm not in rn['args'] and nm != rn['name'] and any(
+                d['kind'] == 'assign' and d['tgt'] == [rn['name']] and p['exprs'][d['e'] - 1]['kind'] == 'lamv' for d in p['nodes']):
+            return ('c07:live:read-by-lambda-called-after-its-definition',
+                    '%s is read by the body of a lambda that was stored in %s and is called at node %d; node %d did not report it '
+                    'live: the analysis assumes lambdas are used only where they are written' % (nm, rn['name'], n, on))
         if on:
             par = mpsig.parents(p)
             # the statement that failed to report lies in an except handler, the read in the finally block of the same try:
